@@ -57,7 +57,8 @@ func NewWorld(run *kernel.Run, n int, networkID uint32, maxBlockChangeView uint3
 	}
 	cfg := config.DefConfig
 	cfg.P2PNode.NetworkId = networkID
-	cfg.Common.EnableEventLog = true
+	// node-local setting that must not influence execution results; varied per run (swarm)
+	cfg.Common.EnableEventLog = run.Plan.C("eventlog", 1) != 0
 	cfg.Genesis = &config.GenesisConfig{
 		ConsensusType: config.CONSENSUS_TYPE_VBFT,
 		VBFT: &config.VBFTConfig{BlockMsgDelay: 10000, HashMsgDelay: 10000, PeerHandshakeTimeout: 10,
